@@ -367,7 +367,7 @@ class Engine:
         return TOP
 
     def const_table_cell(self, p):
-        """a cell of a const-qualified array with an initialiser list (a lookup table): its initial value is its value"""
+        """a cell of a const-qualified array with an initialiser list (a lookup table, possibly of records): its initial value is its value"""
         cache = self.__dict__.setdefault('_const_tables', {})
         root = root_of(p)
         if root not in cache:
@@ -383,16 +383,20 @@ class Engine:
                         g = cand
                         break
             ok = g is not None and g.get('t', '').startswith('const ') and '[' in g.get('t', '') and isinstance(g.get('init'), dict) and g['init'].get('k') == 'list'
-            cache[root] = g['init'] if ok else None
-        init = cache[root]
-        if init is None:
+            cache[root] = (g['init'], g.get('fields') or []) if ok else None
+        if cache[root] is None:
             return TOP
+        init, fields = cache[root]
         rest = p[len(root):]
-        idxs = re.findall(r'\[(\d+|\*)\]', rest)
-        if ''.join('[%s]' % i for i in idxs) != rest:
+        steps = re.findall(r'\[(\d+|\*)\]|\.([A-Za-z_]\w*)', rest)
+        if ''.join('[%s]' % i if i else '.' + f for i, f in steps) != rest:
             return TOP
         nodes = [init]
-        for i in idxs:
+        for i, f in steps:
+            if f:
+                if f not in fields:
+                    return TOP
+                i = str(fields.index(f))
             nxt = []
             for nd in nodes:
                 if nd.get('k') != 'list':
@@ -405,9 +409,17 @@ class Engine:
                 else:
                     nxt.append({'k': 'int', 'v': 0})       # elements without an initialiser are zero
             nodes = nxt
-        if not nodes or len(nodes) > MAXSET or any(nd.get('k') != 'int' for nd in nodes):
+        if not nodes or len(nodes) > MAXSET:
             return TOP
-        return frozenset(nd['v'] for nd in nodes)
+        out = set()
+        for nd in nodes:
+            if nd.get('k') == 'int':
+                out.add(nd['v'])
+            elif nd.get('k') == 'str':
+                out.add(('str', nd['v']))
+            else:
+                return TOP
+        return frozenset(out)
 
     def stored_or_input(self, E, p):
         """the value a read-modify-write (++, +=) starts from: what the path holds, or the input cell the hooks supply for it"""
@@ -605,7 +617,7 @@ class Engine:
                     self.hooks.on_elem(E, x)
                     return None
                 p = self.canon(E, sub)
-                cv = self.const_table_cell(p) if p is not None and p[:2] in ('G:', 'S:') and '[' in p else TOP
+                cv = self.const_table_cell(p) if p is not None and (p[:2] in ('G:', 'S:') or '::SL:' in p) and '[' in p else TOP
                 if cv is not TOP:
                     T[x.id] = cv
                 elif p is not None and self.trackable(p):
